@@ -3,6 +3,7 @@ import DeepModel.Model.Limiter
 import DeepModel.Model.LimiterTimed
 import DeepModel.Model.LimiterInstall
 import DeepModel.Model.LimiterInstallSvc
+import DeepModel.Model.LimiterHandOver
 open Lean Proto Limiter Extracted.Limiter
 
 def parseCfg (j : Json) : Except String Cfg := do
@@ -83,6 +84,15 @@ def handle (j : Json) : Except String Json := do
                       ("ages_svc", optInts ((agesSvc origin World.init none 0 ops).map (·.map Int.ofNat))),
                       ("ages_model", optInts (agesModel origin none ops)),
                       ("installations", Json.arr ((installations origin ops).map (fun seg => ints (seg.map (·.ts)))).toArray)])
+  | "opsD" =>
+    -- configuration operations and their hand-over to the trigger handler as separate events
+    let origin ← match (← getStr j "origin") with
+      | "service" => pure Origin.service
+      | "code" => pure Origin.code
+      | o => throw s!"unknown origin {o}"
+    let ds ← (← getArr j "ops").toList.mapM (fun d => do
+      if (← getStr d "op") == "applied" then pure OpD.applied else pure (OpD.op (← parseOp d)))
+    pure (Json.mkObj [("collected", ints (runOpsD cfg origin ds)), ("at_once", Json.bool (atOnce ds))])
   | "opsN" =>
     -- one tracepoint with several actions (own configuration each): collections per action
     let cfgs ← (← getArr j "cfgs").toList.mapM parseCfg
